@@ -1081,6 +1081,10 @@ pub mod __macro_support {
         #[cold]
         pub fn register(&'static self) -> Interest {
             // Attempt to advance the registration state to `REGISTERING`...
+            #[cfg(feature = "verif-hooks")]
+            __verif_remember(self);
+            #[cfg(feature = "verif-hooks")]
+            tracing_core::__verif::point("macro_callsite.register.cas");
             match self.register.compare_exchange(
                 Self::UNREGISTERED,
                 Self::REGISTERING,
@@ -1090,6 +1094,8 @@ pub mod __macro_support {
                 Ok(_) => {
                     // Okay, we advanced the state, try to register the callsite.
                     crate::callsite::register(self.registration);
+                    #[cfg(feature = "verif-hooks")]
+                    tracing_core::__verif::point("macro_callsite.register.store");
                     self.register.store(Self::REGISTERED, Ordering::Release);
                 }
                 // Great, the callsite is already registered! Just load its
@@ -1107,6 +1113,8 @@ pub mod __macro_support {
                 }
             }
 
+            #[cfg(feature = "verif-hooks")]
+            tracing_core::__verif::point("macro_callsite.interest.load(register)");
             match self.interest.load(Ordering::Relaxed) {
                 Self::INTEREST_NEVER => Interest::never(),
                 Self::INTEREST_ALWAYS => Interest::always(),
@@ -1125,6 +1133,8 @@ pub mod __macro_support {
         /// without warning.
         #[inline]
         pub fn interest(&'static self) -> Interest {
+            #[cfg(feature = "verif-hooks")]
+            tracing_core::__verif::point("macro_callsite.interest.load");
             match self.interest.load(Ordering::Relaxed) {
                 Self::INTEREST_NEVER => Interest::never(),
                 Self::INTEREST_SOMETIMES => Interest::sometimes(),
@@ -1176,6 +1186,37 @@ pub mod __macro_support {
         }
     }
 
+    /// Observation-only verification hook: every `MacroCallsite` that ever
+    /// entered `register()`, so that a harness can read the cached bytes of
+    /// callsites it cannot name (`static __CALLSITE` is block-local).
+    #[cfg(feature = "verif-hooks")]
+    static __VERIF_SEEN: std::sync::Mutex<std::vec::Vec<&'static MacroCallsite>> =
+        std::sync::Mutex::new(std::vec::Vec::new());
+
+    #[cfg(feature = "verif-hooks")]
+    fn __verif_remember(callsite: &'static MacroCallsite) {
+        let mut seen = __VERIF_SEEN.lock().unwrap_or_else(|e| e.into_inner());
+        if !seen.iter().any(|c| core::ptr::eq(*c, callsite)) {
+            seen.push(callsite);
+        }
+    }
+
+    /// Returns `(metadata, cached interest byte, registration byte)` of every
+    /// macro callsite hit so far. Reads only; never used by the library itself.
+    #[cfg(feature = "verif-hooks")]
+    pub fn __verif_snapshot() -> std::vec::Vec<(&'static Metadata<'static>, u8, u8)> {
+        let seen = __VERIF_SEEN.lock().unwrap_or_else(|e| e.into_inner());
+        seen.iter()
+            .map(|c| {
+                (
+                    c.meta,
+                    c.interest.load(Ordering::SeqCst),
+                    c.register.load(Ordering::SeqCst),
+                )
+            })
+            .collect()
+    }
+
     impl Callsite for MacroCallsite {
         fn set_interest(&self, interest: Interest) {
             let interest = match () {
@@ -1183,6 +1224,8 @@ pub mod __macro_support {
                 _ if interest.is_always() => 2,
                 _ => 1,
             };
+            #[cfg(feature = "verif-hooks")]
+            tracing_core::__verif::point("macro_callsite.interest.store");
             self.interest.store(interest, Ordering::SeqCst);
         }
 
